@@ -606,8 +606,8 @@ func (t *Collection) Len() (l int64, err error) {
 		return true
 	}
 	si, err := t.MinItem(false)
-	if err != nil {
-		return
+	if err != nil || si == nil {
+		return // An empty collection has no minimum item.
 	}
 	err = t.VisitItemsAscendEx(si.Key, false, visitor)
 	return
